@@ -325,6 +325,17 @@ func c02Config(c *engine.Ctx, name string, m ref.Msg, mi, si int, senderI bool) 
 			try(append(append([]byte(nil), g1...), g1[len(g1)-e:]...), "extension", nil)
 		}
 	}
+	// extension at the front (encapsulation markers, stray octets of a previous datagram): nothing in front of the
+	// first header octet is covered by the checksum
+	for e := 1; e <= 16; e++ {
+		for _, fill := range []byte{0x00, 0xff} {
+			x := append(univ.Fill(e, fill), g1...)
+			try(x, "extension-front", func(cs *c02Case) { cs.ParseH = e%2 == 0 })
+		}
+		if e <= len(g1) {
+			try(append(append([]byte(nil), g1[:e]...), g1...), "extension-front", nil)
+		}
+	}
 	// extension that is itself a well-formed payload of the type SK.next names
 	try(append(append([]byte(nil), g1...), 0, 0, 0, 8, 1, 2, 3, 4), "extension", nil)
 	// splices of two genuine messages at every offset, both ways
